@@ -43,8 +43,8 @@ func plan(c *vf.Ctx) []caseSpec {
 		mix = []pc{
 			{profile{Name: "small", Ops: 40}, 12},
 			{profile{Name: "install", Ops: 30, Install: true}, 2},
-			{profile{Name: "rot1", Ops: 26, Fill: 30000, BigBatch: true}, 8},
-			{profile{Name: "rot2", Ops: 24, Fill: 60000, BigBatch: true}, 3},
+			{profile{Name: "rot1", Ops: 26, Fill: 30020, BigBatch: true}, 8},
+			{profile{Name: "rot2", Ops: 24, Fill: 60050, BigBatch: true}, 3},
 			{profile{Name: "size", Ops: 14, SizeFill: 33}, 1},
 			{profile{Name: "edge", Ops: 22, Fill: 29999}, 4},
 		}
@@ -52,8 +52,8 @@ func plan(c *vf.Ctx) []caseSpec {
 		mix = []pc{
 			{profile{Name: "small", Ops: 44}, 486},
 			{profile{Name: "install", Ops: 36, Install: true}, 40},
-			{profile{Name: "rot1", Ops: 34, Fill: 30000, BigBatch: true}, 150},
-			{profile{Name: "rot2", Ops: 30, Fill: 60000, BigBatch: true}, 30},
+			{profile{Name: "rot1", Ops: 34, Fill: 30020, BigBatch: true}, 150},
+			{profile{Name: "rot2", Ops: 30, Fill: 60050, BigBatch: true}, 30},
 			{profile{Name: "size", Ops: 20, SizeFill: 33}, 8},
 			{profile{Name: "edge", Ops: 26, Fill: 29999}, 36},
 		}
@@ -89,8 +89,8 @@ func crashPlan(c *vf.Ctx) []caseSpec {
 	}
 	mix := []pc{
 		{profile{Name: "crash-small", Ops: 26}, c.Pick(2, 9)},
-		{profile{Name: "crash-rot", Ops: 12, Fill: 30000}, c.Pick(2, 5)},
-		{profile{Name: "crash-rot2", Ops: 8, Fill: 60000, Deep: true}, c.Pick(1, 3)},
+		{profile{Name: "crash-rot", Ops: 12, Fill: 30020}, c.Pick(2, 5)},
+		{profile{Name: "crash-rot2", Ops: 8, Fill: 60050, Deep: true}, c.Pick(1, 3)},
 	}
 	var out []caseSpec
 	for _, m := range mix {
@@ -150,7 +150,7 @@ func main() {
 	wg.Wait()
 	for _, must := range []string{"rotation/slot-table-full(30000 entries)", "rotation/data-area-full(32MiB)",
 		"append-class/conflict:rotated-file(1-back):slot0", "append-class/conflict:rotated-file(1-back):slot>0", "append-class/conflict:current-file:slot0",
-		"op/del", "op/snap", "op/reopen", "kill-inflight/save", "kill-mode/vfs-arm", "kill-mode/external"} {
+		"op/del", "op/snap", "op/reopen", "kill-inflight/save", "kill-mode/vfs-arm", "kill-mode/external", "kill-target/between-the-file-removals-of-one-op"} {
 		p := strings.SplitN(must, "/", 2)
 		if !c.HasDistinct(p[0], p[1]) {
 			c.Inconclusive("category-not-reached:"+must, 1)
